@@ -103,9 +103,20 @@ def _call(arg):
     return _POOL_FN(arg)
 
 
+def die_with_parent():
+    """Linux: this process receives SIGKILL when its parent exits (so that no worker outlives an aborted check)."""
+    try:
+        import ctypes
+        import signal
+        ctypes.CDLL('libc.so.6', use_errno=True).prctl(1, int(signal.SIGKILL))       # PR_SET_PDEATHSIG
+    except Exception:  # noqa
+        pass
+
+
 def _pin():
     """Pin each worker to one core: the virtual threads of an execution hand a baton to each other and never run in
     parallel, so keeping them on one core avoids cross-core wake-ups."""
+    die_with_parent()
     try:
         cpus = sorted(os.sched_getaffinity(0))
         ident = mp.current_process()._identity
